@@ -510,8 +510,13 @@ def check_ellipse_repeat(case, ctx):
         second = e.fit_image(maxsma=25, **kw2)
         fresh = Ellipse(img.copy(), geom()).fit_image(maxsma=25, **kw2)
     ctx.mark(kw1 != kw2)
-    overrides = any(k in kw1 for k in ('fix_center', 'fix_pa', 'fix_eps',
-                                       'linear', 'step', 'sma0'))
+    # F7 exactly: fix flags persist only when the later call passes *no*
+    # fix flag (the assignment is skipped), `linear` persists when the later
+    # call leaves it at None
+    fixes = ('fix_center', 'fix_pa', 'fix_eps')
+    overrides = ((any(kw1.get(k) for k in fixes)
+                  and not any(kw2.get(k) for k in fixes))
+                 or ('linear' in kw1 and 'linear' not in kw2))
     if _isolist_sig(second) != _isolist_sig(fresh):
         raise Violation('ellipse_second_call_differs',
                         f'fit_image({kw2}) after fit_image({kw1}) differs from '
